@@ -190,14 +190,25 @@ Theorem C03_wrapper_delegates :
   dget gen_wrapper_delegation "" m = m.
 Proof. exact bridge_wrapper_delegation. Qed.
 
-(* log-density of GaussianKDE: either the class defines its own method, or (current tree) it inherits
-   ScipyModel.log_probability_density, which calls gaussian_kde.logpdf(X, dataset=...) -- the F12 path *)
+(* log-density.  scipy-backed families: MODEL_CLASS.logpdf is called with the same (argument, **self._params) as
+   MODEL_CLASS.pdf, i.e. the log-density of the SAME scipy distribution (log o pdf is then scipy's law).
+   GaussianKDE defines its own method (F12 fixed): it is the logarithm of its probability_density. *)
 Definition kde_own_logpdf : bool := existsb (String.eqb "log_probability_density") gen_kde_methods.
-Theorem C03_log_density_dispatch :
-  kde_own_logpdf = true \/
-  (kde_own_logpdf = false /\ dget gen_scipy_delegation "" "log_probability_density" = "logpdf" /\
-   dget gen_model_class "" "GaussianKDE" = "scipy.stats.gaussian_kde").
-Proof. first [left; reflexivity | right; repeat split]. Qed.
+Theorem C03_log_density :
+  dget gen_scipy_delegation "" "log_probability_density" = "logpdf" /\
+  dget gen_scipy_delegation "" "probability_density" = "pdf" /\
+  kde_own_logpdf = true /\
+  (forall pdf x, gen_kde_log_pdf pdf x = ln (pdf x)) /\
+  (forall pdf x, 0 < pdf x -> exp (gen_kde_log_pdf pdf x) = pdf x).
+Proof.
+  split; [reflexivity|]. split; [reflexivity|]. split; [reflexivity|]. split; [reflexivity|].
+  intros pdf x H. unfold gen_kde_log_pdf, np_log. apply exp_ln, H.
+Qed.
+
+(* re-fitting on non-constant data removes every degenerate override that a constant fit installed (F5 fixed) *)
+Theorem C03_refit_clears_degenerate :
+  gen_constant_reset = map fst gen_constant_replacements.
+Proof. reflexivity. Qed.
 
 (* ---- UniformUnivariate: every clause, end to end ---- *)
 Definition uloc (X : list R) : R := dget (gen_uniform_fit X) 0 "loc".
@@ -419,5 +430,6 @@ Print Assumptions C03_kde_ppf_routing.
 Print Assumptions C03_kde_bracket_partial.
 Print Assumptions C03_kde_bracket_refuted.
 Print Assumptions C03_kde_quantile.
+Print Assumptions C03_log_density.
 Print Assumptions C03_kde_ppf_solved.
 Print Assumptions bridge_check_constant_value.
